@@ -91,6 +91,14 @@ def gen_c05(tier, seed):
             g.add(setup_ops(regs, [(STK + 0x20, be(tgt, 4))], ins(0x34, absdef(STK + 0x20))) + ['st'], 'jsb')
         regs = rnd_regs(r, psw)
         g.add(setup_ops(regs, [(STK - 4 + 0x10, be(0x700300, 4))], [0x78]) + ['st'], 'rsb')
+        # targets computed from the stack pointer (JSB changes it while it runs) and through words on the stack
+        import asm as _asm
+        for opnd in (_asm.bdisp(12, 8), _asm.bdisp(12, 0), _asm.bdisp(12, 0xfc), bdispdef(12, 0xfc), bdispdef(12, 0), bdispdef(12, 4), regdef(12),
+                     wdisp(12, 0x100), _asm.hdisp(12, 0x7ff0), absdef(STK), absdef(STK - 4)):
+            regs = rnd_regs(r, psw)
+            mem = [(STK - 8, be(0x700400, 4) + be(0x700500, 4) + be(0x700600, 4) + be(0x700700, 4))]
+            g.add(setup_ops(regs, mem, ins(0x34, opnd)) + ['st', 'rw:%x' % STK], 'jsb-sp-relative')
+            g.add(setup_ops(regs, mem, ins(0x24, opnd)) + ['st'], 'jmp-sp-relative')
     # code placement / alignment
     if tier == 'thorough':
         for pc in range(0x700100, 0x700108):
@@ -407,6 +415,36 @@ def gen_c03(tier, seed):
                 o = [ex(t, oo) if t else oo for t, oo in zip(pat, o)]
                 g.add(setup_ops(regs, [(DATA + 0xfc, be(0xa5a5a5a5, 4) * 4)], ins(OP['EXTFW'], *o) + [0x70, 0x70]) +
                       ['st', 'rw:%x' % (DATA + 0x100), 'rw:%x' % (DATA + 0x104), 'rw:%x' % (DATA + 0xfc)], 'etype4')
+    # instructions that read and write one operand and also change a register (SWAPxI exchanges it with %r0, INC / DEC /
+    # CLR / MCOM in place): the operand addressed through each base register, %r0 included -- the store must go to the
+    # address the operand had when the instruction started
+    for opname in ('SWAPWI', 'SWAPHI', 'SWAPBI', 'INCW', 'DECH', 'CLRB', 'MNEGW', 'MCOMB'):
+        for base in (0, 1, 2, 9, 10, 12):
+            for form in ('regdef', 'bdisp', 'wdisp', 'bdispdef', 'hdispdef'):
+                regs = rnd_regs(r, psw_of(r.choice(allflags())))
+                a = DATA + 0x40 + 4 * r.randrange(8)
+                mem = [(DATA, [r.randrange(256) for _ in range(0x100)])]
+                if form == 'regdef':
+                    if base in (9, 10, 12) and form == 'regdef' and base == 12:
+                        pass
+                    regs[base] = a
+                    o = regdef(base)
+                elif form == 'bdisp':
+                    regs[base] = a - 8
+                    o = bdisp(base, 8)
+                elif form == 'wdisp':
+                    regs[base] = (a + 0x100) & 0xffffffff
+                    o = wdisp(base, 0xffffff00)
+                elif form == 'bdispdef':
+                    regs[base] = DATA + 0x80 - 4
+                    mem.append((DATA + 0x80, be(a, 4)))
+                    o = bdispdef(base, 4)
+                else:
+                    regs[base] = DATA + 0x90 - 0x10
+                    mem.append((DATA + 0x90, be(a, 4)))
+                    o = hdispdef(base, 0x10)
+                code = ins(OP[opname], o, o) if opname in ('MNEGW', 'MCOMB') else ins(OP[opname], o)
+                g.add(setup_ops(regs, mem, code + [0x70, 0x70]) + ['st', 'rw:%x' % (a & ~3), 'rw:%x' % ((a & ~3) + 4), 'gr'], 'read-modify-write')
     return g.result('MOVB/MOVH/MOVW with every pair of the 17 source x 17 destination addressing-mode forms (literal and immediate '
                     'destinations included), with and without each expanded-type prefix on either operand, all base registers, '
                     'boundary displacements of every width, MOVAW / PUSHAW address probes at wrap-around addresses, operand '
@@ -930,6 +968,36 @@ def gen_c13(tier, seed):
             mem = exc_setup(r, []) + [(DATA, [r.randrange(256) for _ in range(0x140)])]
             ops = setup_ops(regs, mem, code + [0x70] * 4) + ['k:3e8', 'sx', 'gr', 'rw:700000', 'rw:700004', 'sx', 'gr', 'X:9']
             g.add(ops, 'fault-in-pop')
+    # STREND / MOVBLW running into a hole or into ROM: the fault must be taken (not swallowed) and the registers must be
+    # what the model says they are at the fault (compared with the model; not judged by the monitor)
+    for _ in range(40 if tier == 'quick' else 800):
+        regs = rnd_regs(r, psw_of(r.choice(allflags()), ipl=15))
+        which = r.choice(['strend-hole', 'strend-unterminated', 'movblw-src', 'movblw-dst-rom', 'movblw-dst-hole', 'movblw-later'])
+        mem = exc_setup(r, [])
+        if which == 'strend-hole':
+            regs[0] = r.choice(UNMAPPED)
+            code = [0x30, 0x1f]
+        elif which == 'strend-unterminated':
+            regs[0] = 0x601ff8
+            mem.append((0x601ff8, [0x41] * 8))
+            code = [0x30, 0x1f]
+        else:
+            code = [0x30, 0x19]
+            regs[2] = r.choice([1, 2, 3, 5])
+            regs[0], regs[1] = DATA, DATA + 0x100
+            if which == 'movblw-src':
+                regs[0] = r.choice(UNMAPPED)
+            elif which == 'movblw-dst-rom':
+                regs[1] = r.choice(ROMADDR)
+            elif which == 'movblw-dst-hole':
+                regs[1] = r.choice(UNMAPPED)
+            else:
+                regs[0] = 0x7ffff8          # two words, then the end of RAM
+                regs[2] = 4
+            mem.append((DATA, [r.randrange(256) for _ in range(0x40)]))
+        regs[12] = STK
+        ops = setup_ops(regs, mem, code + [0x70] * 4) + ['k:3e8', 'sx', 'gr', 'rw:%x' % STK, 'rw:%x' % (STK + 4), 'sx', 'gr']
+        g.add(ops, which)
     return g.result('Every data-processing / move / stack instruction class (B/H/W forms) with each operand in turn pointing at unmapped space '
                     '(holes after every device, above RAM, top of the address space) or, for destinations, ROM, through absolute, register-deferred '
                     'and displacement modes; gate tables and a handler (optionally disturbing the flags) ending in RETG; stepped with Cpu::step '
